@@ -70,7 +70,7 @@ Definition f21_witness : point :=
   {| p_alg := Alg_MIN_MAX_UNIFORM_QUANT; p_op := Op_BATCH_MATMUL;
      p_cfg := Mk_ocfg (Some (Mk_tcfg 8 false Gr_TENSORWISE Dt_INT 0))
                       (Some (Mk_tcfg 8 true Gr_CHANNELWISE Dt_INT 0)) Prec_INTEGER false false |}.
-Theorem C13_accept_sound_refuted_bmm :
+Theorem C13_accept_sound_bmm_refuted :
   exists p, In p lattice /\ accepted p = true /\ kernel_ok p = false.
 Proof.
   exists f21_witness. split; [|split; vm_compute; reflexivity].
@@ -84,7 +84,7 @@ Proof.
   apply in_flat_map. exists Prec_INTEGER. split; [cbn; auto|].
   apply in_map_iff. exists false. split; [reflexivity|cbn; auto].
 Qed.
-Print Assumptions C13_accept_sound_refuted_bmm.
+Print Assumptions C13_accept_sound_bmm_refuted.
 
 (* number of accepted lattice points in the two unsupported classes *)
 Example C13_unsound_points : Z.of_nat (length (filter f20 lattice)) = 4.
